@@ -11,7 +11,7 @@ log = "/tmp/confirm_%s.log" % sid
 conf = open(log).read()[-1500:] if os.path.exists(log) else ""
 json.dump({
     "id": sid, "property": prop, "summary": summary, "needs_to_manifest": needs,
-    "origin": "independent sub-agent given only the property text and a scratch worktree of /repo (base 9cd3091)",
+    "origin": "independent sub-agent given only the property text and a scratch worktree of /repo (base: the /repo HEAD of the round in which it was produced)",
     "confirmed_by_me": "tools/confirm_mutant.sh in a scratch worktree: demo passes on unchanged code, fails with the patch; full test suite passes with the patch (flaky hypothesis tests re-run in isolation)",
     "confirm_log_tail": conf,
     "check_run": "git -C /repo apply seeded/%s/patch.diff && ./check %s ; git -C /repo checkout -- ." % (sid, prop),
